@@ -26,6 +26,21 @@ CLAIMED = {
  "C08": dict(text="Lean theorems about the run loop for any state/step with >= 1 counted evaluation per step: terminates within N steps, stops exactly at the first step reaching the budget (overshoot < one step), zero budget evaluates nothing, consecutive calls get a fresh budget and compose; evaluate_all bookkeeping (calls = unevaluated members <= counter increment). Trace refinement: per-step counter increments and batches of real runs of all 16 algorithm configurations replayed through the model loop",
              note="MaxTime / user conditions out of scope; the per-algorithm fact 'every step counts >= 1 evaluation' is observed on traces, not proved per algorithm",
              tech="Lean 4 proof (induction over the loop) + trace refinement of real runs", ref="§5 C08"),
+ "C01": dict(text="Lean theorem C01_invariant about the abstract machine (Problem.__call__, evaluate_all with copy-back, exposure): in every accepted trace every exposed solution is evaluated and carries exactly the record the problem yields for its own decoded variables, for any world and any evaluator; the machine's own evaluate_all is shown to satisfy the contract. Trace refinement: full observable traces (batches before/after, every exposed collection at every step) of real runs of 16 algorithm configurations x 5 variable types x evaluators (serial, pickled copies, thread submit, apply-async, process pool) replayed through the Lean acceptor; oracle re-derives every exposed record",
+             note="partial: the theorem is about the abstract machine; pickling / real process pools and user-supplied operators are covered by the correspondence only; the harness problems are deterministic pure functions",
+             tech="Lean 4 proof (invariant over event traces) + trace refinement of real runs through a Lean acceptor", ref="§5 C01"),
+ "C07": dict(text="Lean theorems: in every accepted trace every argument submitted to the user's function is valid for the declared types; any bit string of the declared length decodes inside [min,max] (from C17); clamps/clips stay in the box. Same instrumented runs as C01 (every argument validated by the logging problem and re-validated by the Lean acceptor), default-operator registry per type, exhaustive decode probes, generator draws",
+             note="partial: user-supplied operators, generators and injected populations are assumptions; CMA-ES rejection sampling is proved safe, not terminating",
+             tech="Lean 4 proof (trace invariant + producer lemmas) + trace refinement", ref="§5 C07"),
+ "C06": dict(text="Lean theorems for every shipped operator model, for all parents, all kernels (arithmetic) and all draw tapes: offspring valid for the declared types (reals via clip incl. a NaN order model, bit lengths, permutations incl. termination of PMX's replacement chain, duplicate-free subsets), evaluated discipline, symmetry of SBX/HUX/PMX/SSX, combinators preserve validity; parents immutable by construction. Correspondence: each real operator under a scripted random stream with extreme draws, recorded tape replayed by the model: offspring bit-exact, flags, tape consumption, error kinds; exhaustive small permutation/subset domains",
+             note="partial for 'returns without error' of real-valued kernels (overflow/underflow of intermediates is covered by extreme-draw correspondence only); Multimethod is checked by the oracle only",
+             tech="Lean 4 proof (induction over variables / chain-termination argument) + scripted-random bit-exact correspondence", ref="§5 C06"),
+ "C09": dict(text="Lean theorems: rank-first truncation keeps all of front 0 if it fits else only front-0 members (NSGA-II, NSGA-III's fitting fronts), GDE3 pairwise step keeps every non-dominated solution and only drops dominated ones, prune elitist, SPEA2 raw fitness 0 iff non-dominated and truncation elitist for any crowding choice, archive results monotone (Pareto and epsilon), GA/ES best never worse. Per-generation trace refinement: the model's NSGA-II and GDE3 survival functions reproduce the observed next population exactly; front retention, archive monotonicity and best-so-far judged by an independent oracle on real runs",
+             note="partial: NSGA-III reference-point niching and SPEA2 k-th neighbour distances are floating point and only constrained (relation check), not reproduced",
+             tech="Lean 4 proof (sorting/permutation lemmas, archive coverage) + per-step trace refinement", ref="§5 C09"),
+ "C13": dict(text="Lean theorems: consecutive run calls compose into the single-call run; resuming from a faithfully saved state equals continuing; the pinned Replace depended on set order (witness). Differential runs of the real code: same seed twice, in fresh interpreters under several PYTHONHASHSEED values, save at several step boundaries / resume in another process after RNG use / compare with the uninterrupted continuation, split run calls vs one call, process-history pairs through the shared default operators",
+             note="partial: pickle fidelity, Mersenne-Twister state capture and hash randomisation are runtime facts checked by the differential runs, not theorems",
+             tech="Lean 4 proof (composition of the run loop) + differential runs across interpreter processes", ref="§5 C13"),
 }
 PENDING = {}
 def main():
